@@ -23,7 +23,7 @@ NEXT Next
 CHECK_DEADLOCK FALSE
 """ + "".join("INVARIANT Law%s\n" % n for n in (
     "Types", "Arith", "DivRem", "Bitwise", "Rel", "Logical", "Shift", "Unary", "Cond", "Cast", "Literal", "Sizeof",
-    "Enum", "Init", "Bound", "Case", "Width"))
+    "Enum", "Init", "Bound", "Case", "Width", "BfInit"))
 EVAL_CFG = """INIT Init
 NEXT Next
 CHECK_DEADLOCK FALSE
@@ -273,8 +273,9 @@ def make_items(ctx, arch, dm, scale):
     g = Gen(rng, dm)
     items = []
 
-    def add(site, dest, e, enums=None, fam=""):
-        items.append({"arch": arch, "site": site, "dest": dest, "e": e, "enums": enums or [], "fam": fam})
+    def add(site, dest, e, enums=None, fam="", members=None):
+        items.append({"arch": arch, "site": site, "dest": dest, "e": e, "enums": enums or [], "fam": fam,
+                      "members": members or []})
 
     def dest_any():
         return rng.choice(TYPES)
@@ -376,6 +377,38 @@ def make_items(ctx, arch, dm, scale):
         r = rng.random()
         e = bn("add", bn("and", g.tree(2), g.small(1, 31)), lit(1)) if r < 0.5 else bn(rng.choice(list(BIN)), g.small(1, 40), g.small(1, 9))
         add("bitfield", "uint", e, fam="bitfield")
+    # F11: initialisers of bit-field members: struct with 2-4 bit-fields (signed and unsigned, widths 1..8*int-1, one
+    # storage unit) followed by an int member, each initialised with a constant expression - in range, too big, negative
+    maxw = 8 * dm["ib"] - 1
+    for _ in range(int(24 * scale)):
+        members, room = [], 8 * dm["ib"]
+        for j in range(rng.randint(2, 4)):
+            if room < 1:
+                break
+            w = min(rng.choice([1, 2, 3, 4, 5, 7, 8, 9, 12, 15, 16, 17, 24, 31, rng.randint(1, maxw)]), maxw, room)
+            room -= w
+            sg = rng.random() < 0.45
+            r = rng.random()
+            if r < 0.3:      # in range (for a signed member: negative in-range values as well)
+                v = rng.randint(-(1 << (w - 1)), (1 << (w - 1)) - 1) if sg else rng.randint(0, (1 << w) - 1)
+                e = typed("llong" if v < 0 else rng.choice(["ullong", "llong", "ulong"]), v, dm)
+            elif r < 0.5:    # just outside
+                v = rng.choice([1 << w, (1 << w) + 1, (1 << w) + rng.randint(0, 40), -1, -rng.randint(1, 1 << w), (1 << (w - 1))])
+                e = typed("llong", v, dm)
+            elif r < 0.75:   # operator expressions with small / negative results
+                e = bn(rng.choice(["div", "mod", "sub", "add", "mul", "shl", "or", "xor", "lt"]),
+                       rng.choice([un("neg", g.small(1, 40)), g.small(0, 40)]), g.small(1, 9))
+            elif r < 0.9:
+                e = g.tree(2)
+            else:
+                e = g.operand()
+            members.append({"w": w, "s": sg, "e": e})
+        add("bfinit", "int", lit(0), fam="bfinit", members=members)
+    for ms in ([(3, False, lit(2)), (5, False, bn("add", lit(30), lit(3))), (4, False, lit(0))],
+               [(4, False, bn("mul", lit(4), lit(4))), (4, False, lit(2))],
+               [(3, True, un("neg", lit(1))), (5, False, lit(17))],
+               [(3, True, bn("div", un("neg", lit(7)), lit(2))), (4, True, un("neg", lit(8))), (9, False, lit(511))]):
+        add("bfinit", "int", lit(0), fam="core", members=[{"w": w, "s": sg, "e": e} for w, sg, e in ms])
     return items
 
 
@@ -404,6 +437,13 @@ def render_item(it, n):
         return "int f%d(%s x) { switch (x) { case %s: return 1; } return 0; }\n" % (n, t, e), "f%d" % n
     if site == "bitfield":
         return ("struct B%d { %s a : %s; %s pad; } b%d;\n%s f%d(%s x) { b%d.a = x; return b%d.a; }\n" % (n, t, e, t, n, t, n, t, n, n)), "f%d" % n
+    if site == "bfinit":
+        ms = it["members"]
+        decl = " ".join("%s m%d : %d;" % ("int" if m["s"] else "unsigned int", j, m["w"]) for j, m in enumerate(ms, 1))
+        init = ", ".join(render(m["e"]) for m in ms)
+        readers = "".join("%s f%d_%d(void) { return g%d.m%d; }\n" % ("int" if m["s"] else "unsigned int", n, j, n, j)
+                          for j, m in enumerate(ms, 1))
+        return "struct F%d { %s int tail; } g%d = { %s, 77 };\n%s" % (n, decl, n, init, readers), "f%d" % n
     raise ValueError(site)
 
 
@@ -458,11 +498,14 @@ def _observe_data(it, name, module, dm):
     return out_rec(ok=True, bytes_=img, amount=int(v.amount))
 
 
+BEHAVIOUR = ("case", "bitfield", "bfinit")   # sites observed through the behaviour of the produced IR
+
+
 def observe(ctx, items, arch, dm, batch=20):
     """Compile the inputs (data sites in batches, isolating the members of a failing batch) and record outcomes."""
     from harness import project_ir
 
-    data = [k for k, it in enumerate(items) if it["site"] not in ("case", "bitfield")]
+    data = [k for k, it in enumerate(items) if it["site"] not in BEHAVIOUR]
     for grp in core.chunks(data, batch):
         texts = {k: render_item(items[k], k) for k in grp}
         st, m = compile_c("".join(texts[k][0] for k in grp), arch)
@@ -478,7 +521,7 @@ def observe(ctx, items, arch, dm, batch=20):
                 items[k]["out"] = out_rec(diag=st1 == "diag", exc=m1 if st1 == "exc" else "CompilerError")
                 items[k]["msg"] = m1
     for k, it in enumerate(items):
-        if it["site"] not in ("case", "bitfield"):
+        if it["site"] not in BEHAVIOUR:
             continue
         src, fn = render_item(it, k)
         st, m = compile_c(src, arch)
@@ -501,7 +544,7 @@ def ident(it):
 
 def portable(it):
     """The input itself (for replay files)."""
-    return {k: it[k] for k in ("arch", "site", "dest", "e", "enums", "fam")}
+    return {k: it.get(k, []) for k in ("arch", "site", "dest", "e", "enums", "fam", "members")}
 
 
 def strip_names(e):
@@ -514,7 +557,7 @@ def strip_names(e):
 
 def vkey(it, outcome, flags):
     ops = ops_of(it["e"])
-    for d in it["enums"]:
+    for d in it["enums"] + it.get("members", []):
         ops_of(d["e"], ops)
     return "C27:%s:%s:%s:%s:ops=,%s,:sem=,%s,:%s" % (
         it["arch"], it["site"], it["dest"], outcome, ",".join(sorted(ops)), ",".join(flags), it["ctext"])
@@ -522,7 +565,9 @@ def vkey(it, outcome, flags):
 
 def judge(ctx, items):
     recs = [{"key": ident(it), "site": it["site"], "dm": it["dm"], "dest": it["dest"], "e": strip_names(it["e"]),
-             "enums": [{"has": d["has"], "e": strip_names(d["e"])} for d in it["enums"]], "out": it["out"]} for it in items]
+             "enums": [{"has": d["has"], "e": strip_names(d["e"])} for d in it["enums"]],
+             "members": [{"w": m["w"], "s": m["s"], "e": strip_names(m["e"])} for m in it.get("members", [])],
+             "out": it["out"]} for it in items]
     path = ctx.trace_file(recs)
     obs_dir = tempfile.mkdtemp(prefix="c27probes_", dir=ctx.workdir)
     res = ctx.tlc("CConst_Eval", EVAL_CFG, label="constant expressions", env={"TRACE_FILE": path, "OBS_DIR": obs_dir},
@@ -569,13 +614,17 @@ def judge(ctx, items):
     # behavioural sites: run the IR ppci produced on the probe words written by TLC
     cases, owners = [], []
     for k, it in enumerate(items):
-        if it["site"] not in ("case", "bitfield") or not it["out"]["ok"]:
+        if it["site"] not in BEHAVIOUR or not it["out"]["ok"]:
             continue
         pr = verdicts[k]
         if pr["st"] != "ok":
             continue  # the specification gives the expression no value (undefined / constraint): nothing to run
         for j, probe in enumerate(pr["probes"]):
-            cases.append({"id": "%s#%d" % (ident(it), j), "mods": [it["pm"]], "fn": it["fn"], "argv": [[probe["x"]]], "ext": [],
+            if it["site"] == "bfinit":   # one reader function per member, no argument
+                fn, argv = "%s_%d" % (it["fn"], probe["x"][0]), [[]]
+            else:
+                fn, argv = it["fn"], [[probe["x"]]]
+            cases.append({"id": "%s#%d" % (ident(it), j), "mods": [it["pm"]], "fn": fn, "argv": argv, "ext": [],
                           "fuel": 2000, "obs": {"outcome": "ok", "ret": probe["r"], "globals": [], "hascalls": False, "calls": []}})
             owners.append((k, probe, pr.get("fl", [])))
     shutil.rmtree(obs_dir, ignore_errors=True)
@@ -681,7 +730,7 @@ class Engine:
                           coverage=False, timeout=3000)
             if res.errors:
                 raise MachineryError("a law of CConst.tla fails in the specification itself: %s" % res.errors[:3])
-            ctx.cov["law_families_checked"] = 17
+            ctx.cov["law_families_checked"] = 18
         if ctx.only is not None:
             thorough = True  # all targets are candidates for the recorded input
         targets = [("x86_64", 0.6), ("arm", 0.25)] if not thorough else [("x86_64", 6.0), ("arm", 2.5), ("msp430", 1.5), ("or1k", 1.5)]
